@@ -15,7 +15,7 @@ echo "--- demo WITH change (expected: fails)"
 cargo test --offline --test "seed_demo_$N" 2>&1 | grep -E '^test result|^error' | head -3
 echo "--- full suite WITH change (expected: passes)"
 cargo test --workspace --offline --no-fail-fast 2>&1 | grep -E '^test result' | head -4
-git checkout -q -- . 2>/dev/null; git apply -R --check "$D/patch.diff" 2>/dev/null && echo "revert: incomplete" || echo "revert: ok"
+git checkout -q -- . 2>/dev/null; git diff --quiet && echo "revert: ok" || echo "revert: incomplete"
 echo "--- demo WITHOUT change (expected: passes)"
 cargo test --offline --test "seed_demo_$N" 2>&1 | grep -E '^test result|^error' | head -3
 } > "$D/confirm.txt" 2>&1
